@@ -1541,6 +1541,22 @@ class TLSConnection(TLSRecordLayer):
             signature_scheme = certificate_verify.signatureAlgorithm
             self.serverSigAlg = signature_scheme
 
+            # the scheme selects the hash used below, so first make sure
+            # that it is one of those we advertised (for the certificate
+            # or for a delegated credential)
+            advertised = []
+            for ext_type in (ExtensionType.signature_algorithms,
+                             ExtensionType.delegated_credential):
+                ext = clientHello.getExtension(ext_type)
+                if ext and ext.sigalgs:
+                    advertised.extend(ext.sigalgs)
+            if signature_scheme not in advertised:
+                for result in self._sendError(
+                        AlertDescription.illegal_parameter,
+                        "Server selected signature algorithm we didn't "
+                        "advertise"):
+                    yield result
+
             signature_context = KeyExchange.calcVerifyBytes((3, 4),
                                                             srv_cert_verify_hh,
                                                             signature_scheme,
